@@ -300,7 +300,7 @@ impl Property for C12 {
     }
 
     fn cases(tier: Tier) -> u32 {
-        tier.pick(6000, 100_000)
+        tier.pick(20_000, 200_000)
     }
 
     fn assumptions() -> Vec<String> {
@@ -756,7 +756,7 @@ impl Property for C17 {
     }
 
     fn cases(tier: Tier) -> u32 {
-        tier.pick(2500, 40_000)
+        tier.pick(8000, 60_000)
     }
 
     fn assumptions() -> Vec<String> {
